@@ -13,7 +13,7 @@ Definition ev_eqb (a b : ev) : bool :=
 Definition evs_eqb := list_eqb ev_eqb.
 
 Inductive mode := MConfig | MSession | MToSQL.   (* how DryRun was switched on *)
-Inductive finisher := FPlain | FRows | FSave.    (* Execute once / Rows-Row-Scan / Save with a key *)
+Inductive finisher := FPlain | FRows | FSave | FBatch.   (* Execute once / Rows-Row-Scan / Save with a key / CreateInBatches *)
 
 Record case := mk_case {
   c_kind : opk; c_fin : finisher; c_mode : mode; c_skip : bool;
@@ -30,6 +30,13 @@ Definition dry_of (c : case) : cfg :=
 Definition built_of (c : case) : built :=
   mk_built (o_dry_sql c) (o_dry_vars c)
            (o_dry_err c && match c_fin c with FRows => false | _ => true end) (c_ret c) false.
+(* the statements of the batches, as observed in the real run *)
+Fixpoint stmts_of (l : list ev) : list built :=
+  match l with
+  | [] => []
+  | EStmt q s v :: r => mk_built s v false q false :: stmts_of r
+  | _ :: r => stmts_of r
+  end.
 (* the second statement of a Save (insert on conflict), as observed *)
 Fixpoint second_stmt (l : list ev) (seen : bool) : built :=
   match l with
@@ -43,6 +50,7 @@ Definition run_model (cf : cfg) (c : case) (orc : list dres) : rst :=
   | FPlain => execute cf (c_kind c) (built_of c) (rst0 orc)
   | FRows => rows_finisher cf (built_of c) (rst0 orc)
   | FSave => save cf (built_of c) (second_stmt (o_real_log c) false) (rst0 orc)
+  | FBatch => create_in_batches cf (stmts_of (o_real_log c)) (rst0 orc)
   end.
 
 Definition model_agrees (c : case) : bool :=
@@ -59,9 +67,10 @@ Definition spec_holds (c : case) : bool :=
   forallb is_tx_event (o_dry_log c)
   && match c_mode c with MToSQL => match o_dry_log c with [] => true | _ => false end | _ => true end
   (* the exposed statement is the first statement the real run sends *)
-  && match first_stmt (o_real_log c) with
-     | Some (s, v) => String.eqb s (o_dry_sql c) && scalars_eqb v (o_dry_vars c)
-     | None => true
+  && match c_fin c, first_stmt (o_real_log c) with
+     | FBatch, _ => true           (* several statements, none of them "the" main statement *)
+     | _, Some (s, v) => String.eqb s (o_dry_sql c) && scalars_eqb v (o_dry_vars c)
+     | _, None => true
      end.
 
 Definition check_case (c : case) : N := code_of (model_agrees c) (spec_holds c).
